@@ -115,9 +115,13 @@ def _slices(rec, dreye, name, P, d, sig, scale, reuse_buffer):
         # divided by the unit factor is decided by the very same oracle and tolerances as the plain one
         variants += [("float-unit-1e-6", P * 1e-6), ("float-unit-1e6", P * 1e6)]
     for c, (dt, Parg) in itertools.product(cs, variants):
+        uf = 1e-6 if dt == "float-unit-1e-6" else (1e6 if dt == "float-unit-1e6" else 1.0)
+        if uf != 1.0 and np.min(np.abs(psum - c)) <= 1e-9 * scale:
+            # a plane through a cloud point: after scaling, c * uf and the point's coordinate sum round differently, so the
+            # rescaled problem is a different (ill-conditioned) one; only planes clear of every cloud point are rescaled
+            continue
         rec.path()
         rec.trans()
-        uf = 1e-6 if dt == "float-unit-1e-6" else (1e6 if dt == "float-unit-1e6" else 1.0)
         try:
             R = np.asarray(dreye.proj_P_to_simplex(Parg, c * uf), dtype=float) / uf
         except Exception as e:  # noqa
